@@ -40,7 +40,7 @@ def gen_opts(rng, plates):
         smap = list(range(ns)) + [90 + i for i in range(rng.choice([0, 1, 2]))]     # absent names -> gaps in the used sample ids
         rng.shuffle(smap)
     return {"interleave": rng.random() < 0.5, "long_names": rng.random() < 0.3, "perm_names": rng.randrange(1, 10 ** 6) if rng.random() < 0.5 else None,
-            "sample_map": smap, "np_ids": rng.random() < 0.4, "warm": rng.random() < 0.5}
+            "sample_map": smap, "np_ids": rng.random() < 0.4, "warm": rng.random() < 0.5, "obs_instalments": rng.random() < 0.5}
 
 
 def build_screen(plates, opts=None):
@@ -147,14 +147,13 @@ def make_scores(desc, eligible, target):
 
 
 MUTATIONS = []
+CALLS = [0]
 
 
 def check_mutations(res, case):
-    if MUTATIONS:
-        res.fail("select_next_plate / the policy changes its arguments (screen arrays, batch id list, plate lists)", case, MUTATIONS[0], "arguments unchanged",
-                 signature="C16:input-mutation")
+    if MUTATIONS:       # purity is not a clause of the property: a broken tie, never a concrete violation
+        res.disagree("C16:input-mutation", {"case": case}, MUTATIONS[0], "arguments unchanged")
         del MUTATIONS[:]
-        return False
     return True
 
 
@@ -185,8 +184,12 @@ def call_select(screen, desc, k, batch, eligible_hint=(), target=None, shared=No
     ids = [np.int64(x) for x in batch] if np_ids else list(batch)
     ids0 = list(ids)
     snap = screen_snapshot(screen)
+    CALLS[0] += 1
     try:
-        r = select_next_plate(scores=scores, screen=screen, policy=pol, batch_plate_ids=ids, rng=np.random.default_rng(0))
+        # class reuse-other-generator: every call hands the (possibly reused) policy a generator with ANOTHER seed;
+        # the empty batch is sometimes passed as the default None
+        r = select_next_plate(scores=scores, screen=screen, policy=pol, batch_plate_ids=(None if (not ids and CALLS[0] % 2) else ids),
+                              rng=np.random.default_rng(CALLS[0]))
     except Exception as e:  # noqa
         return (log[-1].get("eligible") if log else None), type(e).__name__, None
     if screen_snapshot(screen) != snap or ids != ids0 or (log and log[-1].get("args_changed")):
@@ -205,9 +208,11 @@ def oracle_state(res, case, desc, k, batch, el, err, returned):
     bset = set(batch)
     involved = [d for d in desc if d[0] in bset or not d[2]]
     if any(len(d[1]) != 1 for d in involved):
-        if err != "ValueError":
-            res.fail("multi-sample plate not refused", case, {"error": err, "eligible": el}, "ValueError", signature="C16:multi-not-refused")
+        if err is None:
+            res.fail("multi-sample plate not refused", case, {"error": err, "eligible": el}, "an exception", signature="C16:multi-not-refused")
             return False
+        if err != "ValueError":     # the property says "refused"; the exception class is the model's business
+            res.disagree("C16:refusal-class", {"case": case}, err, "ValueError")
         return True
     if err is not None:
         res.fail("policy raises on single-sample plates", case, err, "no exception", signature="C16:raises")
@@ -251,9 +256,8 @@ def oracle_state(res, case, desc, k, batch, el, err, returned):
         if bad:
             res.fail("batch of m*k plates with a sample that has neither 0 nor k plates", st, bad, "0 or %d" % k, signature="C16:full-batch")
             return False
-    if (returned is None) != (not el):
-        res.fail("select_next_plate returns a plate iff some plate is eligible", st, returned, el, signature="C16:returned")
-        return False
+    if returned is None and el:     # giving up although plates are allowed breaks no clause of the property: tie
+        res.disagree("C16:returned-none", {"case": st}, None, el)
     if returned is not None and returned not in el:
         res.fail("select_next_plate returned a plate that is not eligible", st, returned, el, signature="C16:returned")
         return False
@@ -325,6 +329,8 @@ def count_opts_classes(res, opts, reuse):
     opts = opts or {}
     if reuse:
         res.count("class.object-reuse")
+        res.count("class.identity-cache")            # every call builds new Plate temporaries for the same policy object
+        res.count("class.reuse-other-generator")     # ... and hands it a generator with another seed
     res.count("class.input-mutation")
     if opts.get("np_ids") or opts.get("long_names"):
         res.count("class.layout-dtype")
@@ -380,6 +386,13 @@ def run_history(ctx, res, plates, k, strat, rng, lines, expect, meta, max_len=40
                 break
             if not el:
                 break
+            if forced is not None and shared is not None:
+                # replay of a finding made with ONE policy object (possibly during the exhaustive exploration, which visits sibling states in
+                # between): visit the siblings here too, results ignored, so that state kept inside the policy object has the same chance to show
+                for q in el:
+                    call_select(screen, desc, k, batch + [q], shared=shared, np_ids=npi)
+                el_again, err_again, ret_again = call_select(screen, desc, k, batch, shared=shared, np_ids=npi)
+                oracle_state(res, c, desc, k, batch, el_again, err_again, ret_again)
             if forced is not None:
                 if len(batch) >= len(forced):
                     break
@@ -390,9 +403,8 @@ def run_history(ctx, res, plates, k, strat, rng, lines, expect, meta, max_len=40
             else:
                 target = pick(rng, strat, desc, batch, el)
             el2, err2, ret = call_select(screen, desc, k, batch, eligible_hint=el, target=target, shared=shared, np_ids=npi)
-            if ret != target:
-                res.fail("an eligible plate with the best score among the eligible ones was not selected", dict(c, target=target),
-                         ret, target, signature="C16:returned")
+            if ret != target:       # which allowed plate wins is the scores' business (C06): tie, and this history cannot go on as planned
+                res.disagree("C16:best-eligible", {"case": dict(c, target=target)}, ret, target)
                 stop = True
                 break
             batch.append(target)
@@ -402,9 +414,15 @@ def run_history(ctx, res, plates, k, strat, rng, lines, expect, meta, max_len=40
         res.count("history.len.%s" % ("0" if not batch else "1-3" if len(batch) <= 3 else "4-9" if len(batch) <= 9 else "10+"))
         if rnd > 0:
             res.count("history.later_round")
+            if opts.get("obs_instalments"):
+                res.count("class.instalments")
         if stop or rnd + 1 >= rounds:
             break
-        if batch:
+        if batch and opts.get("obs_instalments"):      # class instalments: the batch is reported plate by plate
+            for pid in batch:
+                sel = screen.plate_ids == pid
+                screen.set_observed(sel, np.full(int(sel.sum()), 0.5))
+        elif batch:
             sel = np.isin(screen.plate_ids, np.array(batch, dtype=int))
             screen.set_observed(sel, np.full(int(sel.sum()), 0.5))
         done.append(list(batch))
@@ -449,7 +467,7 @@ def explore_all(ctx, res, plates, k, lines, expect, meta, rng, line_rate, opts=N
         t = rng.choice(el)
         _, _, ret = call_select(screen, desc, k, list(batch), eligible_hint=el, target=t, shared=shared, np_ids=npi)
         if ret != t:
-            res.fail("an eligible plate with the best score among the eligible ones was not selected", dict(c, target=t), ret, t, signature="C16:returned")
+            res.disagree("C16:best-eligible", {"case": dict(c, target=t)}, ret, t)
             continue
         for p in el:
             stack.append(batch + (p,))
@@ -498,6 +516,14 @@ def run(ctx, res):
         if t < 2:
             res.sample({"kind": "history", "k": k, "counts": counts, "strategy": strat})
 
+    # ---------- A2. class int-width: plate ids above 127 / 255 / 256 (264 plates, 6 samples x 44), two rounds --------------------
+    rng = ctx.subrng("wide")
+    for k in (2, 3):
+        plates = gen_plates(rng, [44] * 6, observed_frac=0.1)
+        run_history(ctx, res, plates, k, "highest", rng, None, None, None, max_len=2 * k + 1, rounds=2, reuse=True,
+                    opts={"np_ids": k == 3, "perm_names": 7, "obs_instalments": True, "warm": False})
+        run_history(ctx, res, plates, k, "random", rng, None, None, None, max_len=2 * k, rounds=1, reuse=False, opts={})
+        res.count("class.int-width", 2)
     # ---------- B. every reachable state of small screens ------------------------------------
     rng = ctx.subrng("exh")
     S, P, total = ctx.scale((3, 3, 6), (4, 4, 8), (3, 4, 7))
